@@ -309,4 +309,6 @@ def run(tier):
     counter_carry_chains(chk)
     ctr_counter_advance(chk)
     poly1305_wrap(chk)
+    from .. import lints as _l
+    _l.limb_split_consistent(chk, ['src/symcipher/'])
     return chk.finish()
